@@ -53,26 +53,10 @@ func (g *Gen) freshResults(cc *ssa.CallCommon, prefix string) []string {
 	return out
 }
 
-func (g *Gen) doCall(cc *ssa.CallCommon, pos token.Pos, name string) []string {
-	if b, ok := cc.Value.(*ssa.Builtin); ok {
-		return g.builtin(b, cc, pos, name)
-	}
-	label := g.c.calleeLabel(cc)
-	n := g.callOrdinal[cc]
-	if n == 0 {
-		g.callOrd[label]++
-		n = 1000 + g.callOrd[label]
-	}
 
-	// argument terms (receiver first for invoke)
-	var args []TV
-	if cc.IsInvoke() {
-		args = append(args, TV{g.val(cc.Value), cc.Value.Type()})
-	}
-	for _, a := range cc.Args {
-		args = append(args, TV{g.val(a), a.Type()})
-	}
-
+// callSiteClauses: the `at call <label> assert` and `at call <label> mark` clauses of the function
+// under verification that name this call site.
+func (g *Gen) callSiteClauses(label string, n int, args []TV, pos token.Pos) {
 	// call-site assertions of the function under verification
 	if g.fc != nil && g.pass == 2 && g.inlineDepth == 0 {
 		k := 0
@@ -140,6 +124,39 @@ func (g *Gen) doCall(cc *ssa.CallCommon, pos token.Pos, name string) []string {
 			g.set(key, "true")
 		}
 	}
+}
+
+func (g *Gen) doCall(cc *ssa.CallCommon, pos token.Pos, name string) []string {
+	if b, ok := cc.Value.(*ssa.Builtin); ok {
+		if bn := b.Name(); (bn == "copy" || bn == "append") && g.fc != nil {
+			// call-site clauses may name the builtins copy and append (`at call copy#2 assert ...`)
+			var bargs []TV
+			for _, a := range cc.Args {
+				bargs = append(bargs, TV{g.val(a), a.Type()})
+			}
+			if n := g.callOrdinal[cc]; n != 0 {
+				g.callSiteClauses(bn, n, bargs, pos)
+			}
+		}
+		return g.builtin(b, cc, pos, name)
+	}
+	label := g.c.calleeLabel(cc)
+	n := g.callOrdinal[cc]
+	if n == 0 {
+		g.callOrd[label]++
+		n = 1000 + g.callOrd[label]
+	}
+
+	// argument terms (receiver first for invoke)
+	var args []TV
+	if cc.IsInvoke() {
+		args = append(args, TV{g.val(cc.Value), cc.Value.Type()})
+	}
+	for _, a := range cc.Args {
+		args = append(args, TV{g.val(a), a.Type()})
+	}
+
+	g.callSiteClauses(label, n, args, pos)
 
 	if g.callBlocks == nil {
 		g.callBlocks = map[string][]*ssa.BasicBlock{}
@@ -165,6 +182,13 @@ func (g *Gen) doCall(cc *ssa.CallCommon, pos token.Pos, name string) []string {
 
 	fc := g.c.contracts[label]
 	callee := cc.StaticCallee()
+	if fc != nil && fc.MayPanic && g.fc != nil && g.fc.NoPanic && g.pass == 2 && g.inlineDepth == 0 &&
+		(len(g.fc.NoPanicKinds) == 0 || containsStr(g.fc.NoPanicKinds, "call")) &&
+		!(containsStr(g.fc.NoPanicKinds, "recovered") && g.recoverArmedHere()) {
+		// the callee is declared `maypanic`: a panic-free caller may reach this call only behind a
+		// recovering defer (nopanic(..., call, recovered)); otherwise the call must be unreachable
+		g.oblige("nopanic", fmtf("%s/nopanic#call@%s#%d", g.fnLabel(), label, n), "false", g.fc.NoPanicProps, "call of a function that may panic ("+label+") outside a recovering defer", pos)
+	}
 	if fc != nil {
 		var names []string
 		if fc.Extern || callee == nil || len(fc.Params) > 0 {
